@@ -60,6 +60,9 @@ def _texts(rng, tier):
             out += [base, base.replace("\n", "\r\n"), "junk\n" + base, base + "\n", base + "\ntrailing", base.replace(END, ""),
                     base.replace("\n" + END, ""), base.replace(SIGM, "-----BEGIN BITCOIN SIGNATURE-----"), base.replace(ADDR + "\n", ""),
                     base.replace(ADDR, "Comment: x\n" + ADDR), base.replace(ADDR, "Comment: x\nAddress: " + ADDR + "\nmore")]
+    for m in exotic_messages(rng, 60 if quick else 2000) + mixed_messages(rng, 30 if quick else 1000):
+        base = t.format(msg=m, addr=ADDR, sig=SIG, net_name="BITCOIN")
+        out += [base, t.format(msg=m.replace("\n", "\r\n"), addr=ADDR, sig=SIG, net_name="BITCOIN"), base.replace("\n", "\r\n")]
     small = [BEGIN, SIGM, END, ADDR, SIG, "", "m", "Address: a"]
     cur = [[]]
     for _ in range(4 if quick else 5):
@@ -93,9 +96,69 @@ def model_cases(rng, tier):
 
 # ---- direct checks: the round trip of the property on the real networks --------------------------------------------
 def in_domain(msg: str) -> bool:
-    """the hypotheses of C17_armour_roundtrip_*: no carriage return in the LF form of the message and no line that starts
-    with '-----BEGIN ' other than the first"""
-    return "\r" not in msg and "\n-----BEGIN " not in msg
+    """LF form of a message with a consistent newline style: no "\\r\\n" pair and no carriage return at the very end (the
+    template's "\\n" would pair with it), and no line that starts with '-----BEGIN ' other than the first.  A carriage return
+    elsewhere, and every other character (form feed, vertical tab, FS/GS/RS, NEL, U+2028, U+2029 ... which str.splitlines
+    treats as line ends but which are NOT line ends of the armour format) is allowed.  (The Coq theorems cover the sub-domain
+    without any carriage return.)"""
+    return "\r\n" not in msg and not msg.endswith("\r") and "\n-----BEGIN " not in msg
+
+
+# characters str.splitlines() breaks on besides \n, \r: they are ordinary message characters for the armour format
+EXOTIC = ["\x0c", "\x0b", "\x1c", "\x1d", "\x1e", "\x85", "\u2028", "\u2029"]
+EXOTIC_FIXED = [
+    "page one\n\x0cpage two\n", "Terms:\n1.\x0bfirst\n2.\x0bsecond", "para\u2028graph\nnext\u2029one", "legacy\x85mainframe\ntext",
+    "a\x1cb\x1dc\x1ed\n", "\x0c", "\x0c\n", "\n\x0c", "x\n\x85\ny", "\u2028\n\u2029", "-\x0b-\n-----END\x0c\n", "\n\nlead\x1e\n\n\ntrail\x1d\n\n",
+    "lone\rcr\nline\x0c", "\rstart\n\x0bend", "-----BEGIN SIGNATURE-----\x0c\nfirst line", "a\x0c\x0c\x0cb\nc", "tab\t\x0c tab\n",
+]
+
+
+def exotic_messages(rng, count):
+    """LF forms of messages over an alphabet with the exotic separators, lone carriage returns, blank lines at both ends and
+    dashes at line starts"""
+    out = list(EXOTIC_FIXED)
+    words = ["a", "b", "é", " ", "-", "-----", "-----END", "-----BEGIN", ":", "Address:", "=", "\t"] + EXOTIC + EXOTIC + ["\r"]
+    for _ in range(count):
+        lines = []
+        for _ in range(rng.randint(1, 5)):
+            if rng.random() < 0.2:
+                lines.append("")
+            else:
+                lines.append("".join(rng.choice(words) for _ in range(rng.randint(1, 6))))
+        m = "\n".join(lines)
+        if rng.random() < 0.3:
+            m = rng.choice(["\n", "\n\n", "\x0c\n"]) + m
+        if rng.random() < 0.3:
+            m += rng.choice(["\n", "\n\n", "\n\x0c"])
+        out.append(m)
+    return out
+
+
+def mixed_messages(rng, count):
+    """messages whose newline style is NOT consistent (mixed \\r\\n / \\n, lone \\n in a DOS text, trailing \\r): the format cannot
+    hand them back unchanged, but the damage is confined to carriage returns"""
+    out = ["a\r\nb\nc", "a\nb\r\nc\x0c", "end\r", "x\x0c\r", "\r\n\x85\n", "a\r\r\nb\n\u2028", "\n\r\n\x0b\r"]
+    for m in exotic_messages(rng, count)[len(EXOTIC_FIXED):]:
+        parts = m.split("\n")
+        out.append("".join(p + rng.choice(["\n", "\r\n", "\r\n"]) for p in parts) + rng.choice(["", "\r", "z"]))
+    return out
+
+
+def chk_mixed(nw, d, msg):
+    """sign -> armour -> parse on a message with an inconsistent newline style: the address and the signature text come back
+    unchanged and the message comes back up to carriage returns (nothing else may be altered)"""
+    k = nw.keys.private(d, is_compressed=True)
+    try:
+        text = nw.msg.sign(k, msg, verbose=True)
+        sig = nw.msg.sign(k, msg)
+        m2, a2, s2 = nw.msg.parse_signed(text)
+    except Exception as e:
+        return {"kind": "armour-raises", "detail": "%s: %s" % (type(e).__name__, e)}
+    if (a2, s2) != (k.address(), sig):
+        return {"kind": "armour-roundtrip", "got": [a2, s2], "want": [k.address(), sig]}
+    if m2.replace("\r", "") != msg.replace("\r", ""):
+        return {"kind": "armour-message-altered", "got": m2[:200], "want": msg[:200]}
+    return None
 
 
 def chk_roundtrip(nw, d, comp, msg_lf, style):
@@ -143,9 +206,34 @@ def prop_cases(rng, tier, networks, msgs):
                 continue
             yield PropCase("armour_roundtrip", {"net": nw.symbol, "d": str(d), "comp": comp, "msg": m, "style": style},
                            (lambda nw=nw, d=d, comp=comp, m=m, style=style: chk_roundtrip(nw, d, comp, m, style)))
+    two = [n for n in nets if n.symbol in ("BTC", "LTC")]
+    for pc in exotic_cases(rng, two, 40 if quick else 1500):
+        yield pc
+
+
+def exotic_cases(rng, nets, count):
+    """the property itself on the exotic family: LF text, DOS message in the LF template, whole text converted to DOS"""
+    for i, m in enumerate(exotic_messages(rng, count)):
+        if not in_domain(m):
+            continue
+        for j, nw in enumerate(nets):
+            d = rng.getrandbits(200) + 1
+            comp = bool((i + j) & 1)
+            for style in ("lf", "crlf-msg", "crlf-all"):
+                if style != "lf" and "\n" not in m:
+                    continue
+                yield PropCase("armour_roundtrip", {"net": nw.symbol, "d": str(d), "comp": comp, "msg": m, "style": style},
+                               (lambda nw=nw, d=d, comp=comp, m=m, style=style: chk_roundtrip(nw, d, comp, m, style)))
+    for i, m in enumerate(mixed_messages(rng, count // 2)):
+        if "\n-----BEGIN " in m.replace("\r", ""):
+            continue
+        nw = nets[i % len(nets)]
+        yield PropCase("armour_mixed", {"net": nw.symbol, "d": "4242", "msg": m}, (lambda nw=nw, m=m: chk_mixed(nw, 4242, m)))
 
 
 def replay_input(check, inp, net):
+    if check == "armour_mixed":
+        return chk_mixed(net(inp["net"]), int(inp["d"]), inp["msg"])
     if check == "armour_roundtrip":
         return chk_roundtrip(net(inp["net"]), int(inp["d"]), inp["comp"], inp["msg"], inp["style"])
     return NotImplemented
@@ -156,8 +244,10 @@ def classify(pc, r):
 
 
 def search_cands(disagreements, net):
-    """texts on which the armour model and the parser disagreed: try them as messages of a real round trip"""
-    cands = []
+    """texts on which the armour model and the parser disagreed: try them as messages of a real round trip; and, whatever
+    broke (also a table generator that failed closed on a changed parser literal), the exotic-separator family"""
+    import random
+    cands = list(exotic_cases(random.Random(17), [net("BTC"), net("LTC")], 120))
     for dgr in disagreements[:30]:
         toks = dgr["case"].split(" ")
         if toks[0] not in ("parse_signed", "parse_sections", "armour"):
